@@ -102,8 +102,10 @@ func c12monotone(c *an.Ctx) {
 		onlyFailure := !isSuccessReturn(r)
 		// (a) a success return reached without the store
 		qa := &an.PathQ{Fn: fn, StartEntry: true, AllAlias: true, AllConsts: true,
-			Sink: func(in ssa.Instruction, ps *an.PathState) bool { return in == ssa.Instruction(r) && sinkSuccessReturn(in, ps) },
-			Cut:  func(in ssa.Instruction, _ *an.PathState) bool { return in == ssa.Instruction(st) }}
+			Sink: func(in ssa.Instruction, ps *an.PathState) bool {
+				return in == ssa.Instruction(r) && sinkSuccessReturn(in, ps)
+			},
+			Cut: func(in ssa.Instruction, _ *an.PathState) bool { return in == ssa.Instruction(st) }}
 		wa, fa := qa.Find()
 		// (b) a success return whose id, on that path, is not the recorded one
 		qb := &an.PathQ{Fn: fn, StartEntry: true, AllAlias: true, AllConsts: true,
